@@ -46,7 +46,7 @@ func run(r *vk.Run) {
 	for _, k := range []string{"scalar/mask", "msgfield/mask", "repeated/mask", "map/mask", "scalar/replace", "msgfield/replace", "repeated/replace", "map/replace", "root/replace"} {
 		r.Require("region-judged:"+k, 200)
 	}
-	r.Require("region-open-judged", 100)
+	r.Require("ancestor-of-writable-cases", 100) // accepted or rejected: the statement leaves it open
 	r.Require("reset-judged:inside-region-written-has-it", 200)
 	r.Require("reset-judged:outside-region", 200)
 	r.Require("oneof-arm-switched", 100)
@@ -405,9 +405,9 @@ func childOf(rng *vk.Rand, u *universe, p string) string {
 }
 
 func random(r *vk.Run, u *universe) {
-	n := r.Pick(12000, 600000)
+	n := r.Pick(12000, 1500000)
 	if u.name != "TestAllTypes" {
-		n = r.Pick(3000, 100000)
+		n = r.Pick(3000, 250000)
 	}
 	for i := 0; i < n; i++ {
 		if !r.Mine(i) {
@@ -559,12 +559,11 @@ func runTuple(r *vk.Run, u *universe, t tuple, idx int, part, pairName string) {
 		// different stored state, or a writable mask that the resource layer normalises before FieldUpdater sees it:
 		// the baseline is FieldUpdater on the tuple the resource layer effectively executes
 		rsp = refMerge(rt.old, rt.src, rt.M, rt.W, rt.reset)
-		bt := rt
 		if unnormW {
-			bt.W = normaliseMask(rt.W)
+			rt.W = normaliseMask(rt.W) // what FieldUpdater is given by the resource layer; same set of fields
 		}
 		base = map[string]bool{}
-		for _, f := range judge(nil, bt, rsp, driveDirect(bt), "", "") {
+		for _, f := range judge(nil, rt, rsp, driveDirect(rt), "", "") {
 			base[f.key] = true
 		}
 	}
@@ -713,6 +712,7 @@ func judge(r *vk.Run, t tuple, sp spec, o outcome, entry, desc string) []finding
 		switch {
 		case sp.verdict == mayReject:
 			count("unasserted:ancestor-of-writable-rejected")
+			count("ancestor-of-writable-cases")
 		case codeOf(o.err) != codes.InvalidArgument:
 			count("unasserted:valid-mask-failed-with-" + codeOf(o.err).String())
 		case !normalised(t.M.paths):
@@ -735,6 +735,7 @@ func judge(r *vk.Run, t tuple, sp spec, o outcome, entry, desc string) []finding
 	}
 	if sp.verdict == mayReject {
 		count("unasserted:ancestor-of-writable-accepted")
+		count("ancestor-of-writable-cases")
 	}
 	// accepted: compare
 	out = append(out, checkMerge(t.old, t.src, o.got, t.M, t.W, sp)...)
